@@ -45,13 +45,26 @@ func minAmp[T constraints.Integer]() int64 { return -(int64(1) << (widthOf[T]() 
 func maxAmp[T constraints.Integer]() int64 { return int64(^uint64(0) >> (65 - widthOf[T]())) }
 
 // conv2 converts two samples with the real function. Case split over the layout: two frames of a mono
-// buffer, the two channels of one frame, or buffers handed out again by a pool after a put (value-level
+// buffer, the two channels of one frame, buffers handed out again by a pool after a put, or (C06/C07) the ends
+// of a long buffer (value-level
 // behaviour must not depend on layout or on the buffers' history). The destination holds stale samples.
 func conv2[S, D signal.SignalTypes](conv func(*signal.Buffer[S], *signal.Buffer[D]) int, x0, x1 S) (D, D) {
 	a := signal.Allocator{Channels: 1, Length: 2, Capacity: 2}
-	layout := vf.PickOnce("layout", 0, 2)
+	layout := vf.PickOnce("layout", 0, 2+vf.Param("BigLayout", 0))
 	if layout == 1 {
 		a = signal.Allocator{Channels: 2, Length: 1, Capacity: 1}
+	}
+	if layout == 3 {
+		// a long mono buffer (size-dependent code paths); the two samples sit at its ends
+		n := vf.Param("BigFrames", 600)
+		a = signal.Allocator{Channels: 1, Length: n, Capacity: n}
+		src, dst := signal.Alloc[S](a), signal.Alloc[D](a)
+		dst.SetSample(0, 1)
+		dst.SetSample(n-1, 1)
+		src.SetSample(0, x0)
+		src.SetSample(n-1, x1)
+		vf.Assert("frames-converted", conv(src, dst) == n)
+		return dst.Sample(0), dst.Sample(n - 1)
 	}
 	src, dst := signal.Alloc[S](a), signal.Alloc[D](a)
 	if layout == 2 {
